@@ -30,6 +30,29 @@ fn long_knots(k: usize, m: usize) -> Vec<Rat> {
     t
 }
 
+/// at the doubles next to every knot (one ulp below and above) the functions still sum to one, are non-negative and
+/// vanish outside their support - whichever side of zero the span lies on
+fn neighbour_checks(t: &Vec<f64>, k: usize, n: usize, what: &str, case: &Case, idx: u64, acc: &mut Acc) {
+    let (lo, hi) = (t[0], t[t.len() - 1]);
+    let mut knots: Vec<f64> = t.clone();
+    knots.dedup();
+    for u in knots {
+        for x in [f64::from_bits(if u > 0.0 { u.to_bits() - 1 } else if u < 0.0 { u.to_bits() + 1 } else { (-f64::from_bits(1)).to_bits() }), f64::from_bits(if u > 0.0 { u.to_bits() + 1 } else if u < 0.0 { u.to_bits() - 1 } else { 1 })] {
+            if !(x >= lo && x <= hi) {
+                continue;
+            }
+            acc.eval();
+            let vals: Vec<f64> = (0..n).map(|i| bsplev_single_f64(&x, i, &k, t, None)).collect();
+            let sum: f64 = vals.iter().sum();
+            let outside = (0..n).any(|i| (x < t[i] || x > t[i + k]) && vals[i] != 0.0);
+            if (sum - 1.0).abs() > 1e-12 || vals.iter().any(|v| *v < 0.0 || *v > 1.0 + 1e-12) || outside {
+                acc.violate(&format!("next-to-a-knot/{}", what), idx, serde_json::to_value(case).unwrap(), json!({"knot": u, "x": format!("{:e}", x), "want_sum": 1.0}), json!({"sum": sum, "values": vals}));
+                return;
+            }
+        }
+    }
+}
+
 pub fn check(case: &Case, idx: u64, acc: &mut Acc) {
     let cj = || serde_json::to_value(case).unwrap();
     let k = case.k;
@@ -41,6 +64,13 @@ pub fn check(case: &Case, idx: u64, acc: &mut Acc) {
     let basis = Basis::new(k, &tr);
     let n = basis.n();
     let pts = eval_points(&basis.u);
+    // a call with an index beyond the last function (it aborts; the abort is caught) must leave nothing behind for the
+    // calls that follow on this thread
+    if k >= 2 {
+        let _ = guarded(|| bspldnev_single_f64(&t[k - 1], n + 1, &k, &t, 1, None));
+        let _ = guarded(|| bsplev_single_f64(&t[k - 1], n + 2, &k, &t, None));
+    }
+    neighbour_checks(&t, k, n, "as-given", case, idx, acc);
     let hmin = basis.u.windows(2).map(|w| w[1].sub(w[0]).f()).fold(f64::INFINITY, f64::min);
     let last = *basis.u.last().unwrap();
     let repeated = case.interior.iter().any(|(_, m)| *m > 1) || (case.long.is_some() && k >= 3);
@@ -220,6 +250,7 @@ pub fn check(case: &Case, idx: u64, acc: &mut Acc) {
             if neg_zero_knots && !ts.iter().any(|v| *v == 0.0) {
                 continue;
             }
+            neighbour_checks(&ts, k, n, "translated", case, idx, acc);
             for x in pts.iter() {
                 let xf = x.f();
                 let xs0 = xf + shift;
@@ -291,7 +322,7 @@ pub fn run(ctx: &Ctx, replay_file: Option<String>) -> ! {
          i128 rational coefficients, symbolic derivatives, right limit, left limit at the right end point): value >= 0 \
          with no tolerance, exactly 0 outside [t_i, t_{i+k}], sum = 1 to 1e-12, m-th derivative equal to the model's, \
          exactly 0 for m >= k; the dual-abscissa variants (bsplev/bspldnev_single_dual, _dual2) return the same \
-         value with the next one / two derivatives as first / second order sensitivities. Scale invariance: every knot vector and abscissa multiplied by 2^e, e in {-1060,-1054,-1022,-80,-60,-54,-53,-30,40,900} (subnormal knots included), gives bit-identical values and exactly rescaled first derivatives. Translation: every knot vector and abscissa shifted by -4, -3, -1.5, -t0 and 1024 (exact) gives identical values and first derivatives, with both signs of zero tried for an abscissa and for a stored knot that lands on zero. Far translation: knots x 4 + 2^53 (spans of one or two ulps of the knot values) at the representable points, values and derivatives up to order 3. Vector route: PPSpline::bspldnev on ascending, descending and scrambled-with-repeats point vectors equals the single-point route. Long knot vectors: orders 1..5 with 7, 8, 15, 16, 17, 31, 32, 33, 64 interior knots (thorough tier: also 255 / 256 / 257 at order 3 / 2 / 4) at half-integer positions (middle knot doubled). The model itself is checked to be a partition of unity at every point. Non-trivial: \
+         value with the next one / two derivatives as first / second order sensitivities. Scale invariance: every knot vector and abscissa multiplied by 2^e, e in {-1060,-1054,-1022,-80,-60,-54,-53,-30,40,900} (subnormal knots included), gives bit-identical values and exactly rescaled first derivatives. Translation: every knot vector and abscissa shifted by -4, -3, -1.5, -t0 and 1024 (exact) gives identical values and first derivatives, with both signs of zero tried for an abscissa and for a stored knot that lands on zero. Far translation: knots x 4 + 2^53 (spans of one or two ulps of the knot values) at the representable points, values and derivatives up to order 3. At the doubles one ulp below and above every knot (as given and translated, so also for spans that straddle zero) the functions sum to one, are non-negative and respect their support; every case starts with two calls whose index is out of range (caught), which must leave nothing behind. Vector route: PPSpline::bspldnev on ascending, descending and scrambled-with-repeats point vectors equals the single-point route. Long knot vectors: orders 1..5 with 7, 8, 15, 16, 17, 31, 32, 33, 64 interior knots (thorough tier: also 255 / 256 / 257 at order 3 / 2 / 4) at half-integer positions (middle knot doubled). The model itself is checked to be a partition of unity at every point. Non-trivial: \
          evaluations exactly at a knot where the function is non-zero.",
         json!({"max_order": ctx.tier.pick(6, 7), "knot_vectors": cs.len()}),
     )
